@@ -3,7 +3,9 @@ package props
 import (
 	"context"
 	"fmt"
+	"runtime"
 	"sync"
+	"sync/atomic"
 	"time"
 
 	p9p "github.com/frobnitzem/go-p9p"
@@ -19,7 +21,7 @@ func init() {
 		Level: "fault_enumeration",
 		Rule: "operation sequences (biased towards binding many fids: attach, walks onto new fids, in-place walks, opens, creates of files and directories, clunks, removes) are first run fault-free on SFileSys(instrumented FS) to number the FS calls 1..N; " +
 			"then EVERY single call index is failed in both flavours (error, nil result), sampled pairs of indices are failed, and Session.Stop is issued after EVERY prefix of the sequence. Oracle: the release monitor inside the FS (each handle has a unique id and a state: " +
-			"double release, use after release/consume — also through its File or directory iterator, use of a partial-walk placeholder), the fid-table hook after every call (nothing released stays bound), the reference model for which handle receives which release call, and after Stop: every handle that was bound is released by exactly one Clunk, the hook table holds no entry, no handle that was handed out for binding is still live; a call not returned at quiescence is a hang. A second family queues an operation B on a fid's lock while operation A on the same fid is parked inside the file system on one of the release paths (clunk, remove, in-place walk, create, mkdir whose OpenDir fails) or merely using the entry (read, write, directory read, stat) and lets the same monitors judge what B then does to the entry. A third family reaches Stop through p9p.ServeConn's own shutdown (context cancel, peer EOF, read error, reply-write failure) while handlers are parked inside attach / walk / create and bind their entry after having been cancelled (the scripts and machinery of C11). " +
+			"double release, use after release/consume — also through its File or directory iterator, use of a partial-walk placeholder), the fid-table hook after every call (nothing released stays bound), the reference model for which handle receives which release call, and after Stop: every handle that was bound is released by exactly one Clunk, the hook table holds no entry, no handle that was handed out for binding is still live; a call not returned at quiescence is a hang. A second family queues an operation B on a fid's lock while operation A on the same fid is parked inside the file system on one of the release paths (clunk, remove, in-place walk, create, mkdir whose OpenDir fails) or merely using the entry (read, write, directory read, stat) and lets the same monitors judge what B then does to the entry. A third family reaches Stop through p9p.ServeConn's own shutdown (context cancel, peer EOF, read error, reply-write failure) while handlers are parked inside attach / walk / create and bind their entry after having been cancelled (the scripts and machinery of C11). Two small families: a Tauth naming a fid that is in use on a file system that requires authentication; and six requests binding the same unused fid at the same instant (attach, walk, clone; spin barrier; thousands of rounds) of which exactly one may succeed. " +
 			"non-trivial = the sequence bound >= 2 handles and the fault hit a call made while >= 1 handle was bound; distinct by (sequence hash, fault indices, stop point)",
 		Assumptions: []string{
 			"exhaustive over (sequence, single fault index x 2 flavours) and (sequence, stop prefix) for the generated sequences; sequences themselves and fault pairs are sampled",
@@ -29,7 +31,7 @@ func init() {
 		Shards:   shards(8, 16),
 		Timeout:  timeouts(12*time.Minute, 90*time.Minute),
 		MinEvals: 1000,
-		Required: []string{"path:clunk", "path:remove", "path:consumed-by-create", "path:replaced-by-inplace-walk", "path:stop", "single_fault_runs", "pair_fault_runs", "stop_prefix_runs", "faults_that_hit", "queued_pair_runs", "served_shutdown_runs", "entries_bound_after_cancel"},
+		Required: []string{"path:clunk", "path:remove", "path:consumed-by-create", "path:replaced-by-inplace-walk", "path:stop", "single_fault_runs", "pair_fault_runs", "stop_prefix_runs", "faults_that_hit", "queued_pair_runs", "served_shutdown_runs", "entries_bound_after_cancel", "auth_on_bound_fid_runs", "bind_race_rounds"},
 		Run:      runC13,
 	})
 }
@@ -234,7 +236,144 @@ func c13Queued(w *mon.W, no int) {
 	w.NT(fmt.Sprintf("queued/%s/%s/%s", name, parkOp, B.n))
 }
 
+// authOnBoundFidC13: the file system requires authentication; a Tauth names a fid that is in
+// use. It must be refused and the fid it names must stay bound, usable, and be released
+// exactly once in the end.
+func authOnBoundFidC13(w *mon.W, no int) {
+	ctx := context.Background()
+	fs := fsx.New()
+	fs.AuthRequired = true
+	sess := p9p.SFileSys(fs)
+	w.Case("C13 auth on a bound fid #%d", no)
+	w.Eval()
+	w.Count("auth_on_bound_fid_runs", 1)
+	sess.Attach(ctx, 1, p9p.NOFID, "u", "")
+	sess.Walk(ctx, 1, 2, "d")
+	sess.Walk(ctx, 1, 3, "a")
+	sess.Open(ctx, 3, p9p.OREAD)
+	victim := p9p.Fid(1 + no%3)
+	if _, err := sess.Auth(ctx, victim, "u", ""); err == nil {
+		w.Violate("mismatch", "C13:auth-on-bound-fid-accepted", fmt.Sprintf("Auth(afid=%d) succeeded although fid %d is bound", victim, victim), nil)
+		return
+	}
+	if no%2 == 0 {
+		// a proper auth fid next to it
+		sess.Auth(ctx, 9, "u", "")
+	}
+	if _, err := sess.Stat(ctx, victim); err != nil {
+		w.Violate("mismatch", "C13:auth-unbound-a-fid", fmt.Sprintf("after the refused Auth(afid=%d) the fid is no longer usable: Stat fails with %v; its entry was never released", victim, err), nil)
+		return
+	}
+	if no%4 < 2 {
+		sess.Clunk(ctx, victim)
+	}
+	sess.Stop(nil)
+	if ps := fs.Problems(); len(ps) > 0 {
+		w.Violate(ps[0].Kind, "C13:auth:"+ps[0].Kind, fmt.Sprintf("auth on a bound fid: %s", ps[0].Msg), nil)
+		return
+	}
+	for _, p := range fs.FinalCheck() {
+		w.Violate(p.Kind, "C13:auth:"+p.Kind+":final", fmt.Sprintf("after a refused Auth(afid=%d) and Stop: %s", victim, p.Msg), nil)
+		return
+	}
+	w.NT(fmt.Sprintf("auth/%d", no%12))
+}
+
+// bindRaceC13: several requests bind the same unused fid at the same instant (spin barrier),
+// round after round with a fresh fid. Exactly one may succeed; every entry the file system
+// handed out must in the end have been released exactly once.
+func bindRaceC13(w *mon.W, no, rounds int) {
+	ctx := context.Background()
+	fs := fsx.New()
+	sess := p9p.SFileSys(fs)
+	w.Case("C13 bind race #%d (%d rounds)", no, rounds)
+	w.Eval()
+	sess.Attach(ctx, 1, p9p.NOFID, "u", "")
+	const workers = 6
+	var round, arrived int32
+	results := make([]error, workers)
+	var wg sync.WaitGroup
+	for i := 0; i < workers; i++ {
+		wg.Add(1)
+		go func(i int) {
+			defer wg.Done()
+			for rd := int32(1); rd <= int32(rounds); rd++ {
+				for atomic.LoadInt32(&round) < rd {
+					runtime.Gosched()
+				}
+				if atomic.LoadInt32(&round) > int32(rounds) {
+					return
+				}
+				fid := p9p.Fid(100 + rd)
+				var err error
+				switch i % 3 {
+				case 0:
+					_, err = sess.Attach(ctx, fid, p9p.NOFID, "u", "")
+				case 1:
+					_, err = sess.Walk(ctx, 1, fid, "d")
+				default:
+					_, err = sess.Walk(ctx, 1, fid)
+				}
+				results[i] = err
+				atomic.AddInt32(&arrived, 1)
+			}
+		}(i)
+	}
+	done := 0
+	for rd := 1; rd <= rounds; rd++ {
+		atomic.StoreInt32(&arrived, 0)
+		atomic.StoreInt32(&round, int32(rd))
+		for spins := 0; atomic.LoadInt32(&arrived) < workers; spins++ {
+			runtime.Gosched()
+			if spins > 300000000 {
+				atomic.StoreInt32(&round, int32(rounds+1))
+				w.Inconclusive("bind race: a round did not complete")
+				return
+			}
+		}
+		ok := 0
+		for _, e := range results {
+			if e == nil {
+				ok++
+			}
+		}
+		if ok != 1 {
+			atomic.StoreInt32(&round, int32(rounds+1))
+			wg.Wait()
+			w.Violate("mismatch", "C13:bind-race", fmt.Sprintf("round %d: %d of %d simultaneous requests binding the unused fid %d succeeded", rd, ok, workers, 100+rd), nil)
+			return
+		}
+		if rd%2 == 0 {
+			sess.Clunk(ctx, p9p.Fid(100+rd))
+		}
+		done++
+	}
+	atomic.StoreInt32(&round, int32(rounds+1))
+	wg.Wait()
+	w.Count("bind_race_rounds", int64(done))
+	sess.Stop(nil)
+	if ps := fs.Problems(); len(ps) > 0 {
+		w.Violate(ps[0].Kind, "C13:bind-race:"+ps[0].Kind, fmt.Sprintf("bind race: %s", ps[0].Msg), nil)
+		return
+	}
+	for _, p := range fs.FinalCheck() {
+		w.Violate(p.Kind, "C13:bind-race:"+p.Kind+":final", fmt.Sprintf("after %d rounds of simultaneous binds and Stop: %s", done, p.Msg), nil)
+		return
+	}
+	w.NT(fmt.Sprintf("bindrace/%d", no))
+}
+
 func runC13(w *mon.W) {
+	for i := 0; i < w.Scale(48, 2000); i++ {
+		if w.Mine(i) {
+			authOnBoundFidC13(w, i)
+		}
+	}
+	for i := 0; i < w.NShards; i++ {
+		if w.Mine(i) {
+			bindRaceC13(w, i, w.Scale(600, 40000))
+		}
+	}
 	// stop reached through ServeConn's shutdown while handlers are still in their FS call (and
 	// bind an entry after having been cancelled): the release accounting must hold there too
 	idx := 0
